@@ -998,6 +998,7 @@ func TestVerif_C16(t *testing.T) {
 	var accepted, benign, rejected, notApplicable atomic.Int64
 	kvShiftAccepted := 0
 	benignKinds := map[string]int{}
+	adoptFailed := map[string]int{}
 	for _, tg := range targets {
 		tg := tg
 		h := hs[tg.hist]
@@ -1085,6 +1086,9 @@ func TestVerif_C16(t *testing.T) {
 				key = "C16:kv-boundary-shift"
 			}
 			if err := c14Adopt(acc, top, src); err != nil {
+				mu.Lock()
+				adoptFailed[m.kind+": "+err.Error()]++
+				mu.Unlock()
 				r.Report(key, fmt.Sprintf("history %s catchpoint %d: file with mutation {%s} passes ProcessStagingBalances, BuildMerkleTrie and VerifyCatchpoint against the producer's label %s; completing the catchup then fails: %v", h.Name, tg.round, m.desc, tg.label, err), replay)
 				return
 			}
@@ -1137,6 +1141,7 @@ func TestVerif_C16(t *testing.T) {
 	r.Set("mutations_accepted_same_state", benign.Load())
 	r.Set("mutations_not_applicable", notApplicable.Load())
 	r.Set("accepted_same_state_by_kind", benignKinds)
+	r.Set("accepted_but_adoption_failed", adoptFailed)
 	r.Set("kv_boundary_shift_adopted", kvShiftAccepted)
 	r.Set("files_mutated", len(targets))
 	nv := r.Finish(ve.Coverage{Rule: fmt.Sprintf("%d histories: every catchpoint file restored faithfully (state + later labels compared); every single semantic mutation (list in the harness header) of %d files staged through the real accessor, accepted ones adopted and compared", len(hs), len(targets)),
